@@ -263,6 +263,9 @@ class Ombott:
         try:
             path = path.encode('latin1').decode('utf8')
         except UnicodeError:
+            # the error page must describe this request, not the previous one
+            request.__init__(environ)
+            response.__init__()
             return HTTPError(400, 'Invalid path string. Expected UTF-8')
         environ['PATH_INFO'] = path
         try:  # init thread
